@@ -49,6 +49,7 @@ type grState struct {
 	llgr    map[wFamily]time.Duration // LLGR deadline per family (0: not running)
 	llgrOn  bool
 	capFams []string // families the peer will list in its next GR capability
+	llgrEnd time.Duration // instant at which the last long-lived timer runs out (0: none running)
 	fuzzy   bool     // LLGR with a further loss before End-of-RIB: RFC 9494 leaves the details open; checks suspended
 	deleted bool     // the neighbour was removed by the operator (until it is added again): nothing of it may remain (C02)
 }
@@ -295,6 +296,16 @@ func (w *simWorld) grCatchUp(st *grState) {
 				}
 			}
 			w.probe("llgr_started")
+			st.llgrEnd = 0
+			for _, fn := range st.p.cfg.GR.LLGRFamilies {
+				// gobgp runs one long-lived timer per LLGR family of the neighbour, routes or not
+				if hasString(st.p.cfg.Families, fn) {
+					st.llgrEnd = exp + time.Duration(st.p.cfg.GR.LLGRTime)*time.Second
+				}
+			}
+			if st.llgrEnd == 0 {
+				st.restart = false
+			}
 		} else {
 			st.routes = map[viewKey]*grRoute{}
 			st.restart = false
@@ -311,6 +322,12 @@ func (w *simWorld) grCatchUp(st *grState) {
 			st.llgr[f] = 0
 			w.probe("llgr_timer_expired")
 		}
+	}
+	if st.llgrEnd != 0 && st.llgrEnd <= now && !st.up && st.restart {
+		// every long-lived timer has run out: the neighbour is not restarting any more
+		st.llgrEnd = 0
+		st.restart = false
+		w.probe("llgr_all_timers_expired")
 	}
 }
 
@@ -388,6 +405,7 @@ func grOp(w *simWorld, actor int, op *Op) {
 				for f := range st.llgr {
 					st.llgr[f] = 0
 				}
+				st.llgrEnd = 0
 				if !st.gr {
 					st.restart = false
 				}
@@ -615,6 +633,20 @@ func (w *simWorld) grCompare(st *grState) {
 	if st.fuzzy {
 		w.probe("llgr_consecutive_loss_unchecked")
 		return
+	}
+	// the neighbour's "restarting" state as reported must follow the same life cycle as its routes
+	if !st.deleted {
+		if ps := w.listPeers()[st.p.cfg.Addr]; ps != nil && ps.Peer.GracefulRestart != nil {
+			got := ps.Peer.GracefulRestart.PeerRestarting
+			want := st.restart
+			now := w.now()
+			near := func(d time.Duration) bool { return d != 0 && d-now < 2*time.Second && now-d < 2*time.Second }
+			if got != want && !near(st.dead) && !near(st.llgrEnd) {
+				w.violate("C12", "restarting-flag", fmt.Sprintf("reported=%v", got), fmt.Sprintf("ListPeer reports peer-restarting=%v, the neighbour's restart (stale routes retained, timers running) is %v (up=%v)", got, want, st.up))
+			} else {
+				w.probe("restarting_flag_compared")
+			}
+		}
 	}
 	var fp []string
 	for _, fam := range st.p.families() {
